@@ -5,7 +5,7 @@ from sexpr import enc, hexs, unhex
 from odata_query import ast
 from odata_query.grammar import ODataLexer, ODataParser
 
-PROP_MODS = ["ODataVerif.Tie.ParserTables", "ODataVerif.Props.C05", "ODataVerif.Props.C05Roundtrip", "ODataVerif.Props.C13Text", "ODataVerif.Props.C10Image"]
+PROP_MODS = ["ODataVerif.Tie.ParserTables", "ODataVerif.Props.C05", "ODataVerif.Props.C05Roundtrip", "ODataVerif.Props.C13Text", "ODataVerif.Props.C05Text", "ODataVerif.Props.C10Image"]
 
 BIN = [("bool", ast.Or), ("bool", ast.And), ("cmp", ast.Eq), ("cmp", ast.NotEq), ("cmp", ast.Lt), ("cmp", ast.LtE), ("cmp", ast.Gt),
        ("cmp", ast.GtE), ("arith", ast.Add), ("arith", ast.Sub), ("arith", ast.Mult), ("arith", ast.Div), ("arith", ast.Mod), ("in", ast.In)]
